@@ -589,7 +589,7 @@ theorem collToList_ty {uns : Bool} {ie oe conv} {v r : Value}
     (hel : ElemsOK E v ie) (h : applyStep E rec (.collToList oe conv) v = .ok r) :
     r.ty = .list oe.stripOpt := by
   have hnd : oe.isDyn = false := not_isDyn_of_noDyn hdo
-  simp only [applyStep, hnd] at h
+  simp only [applyStep, hnd, hdo] at h
   split at h
   · simp at h; subst h; rfl
   · obtain ⟨es, hes, h⟩ := Res.bind_eq_ok h
@@ -611,7 +611,7 @@ theorem collToSet_ty {uns : Bool} {ie oe conv} {v r : Value}
     (hel : ElemsOK E v ie) (h : applyStep E rec (.collToSet oe conv) v = .ok r) :
     r.ty = .set oe.stripOpt := by
   have hnd : oe.isDyn = false := not_isDyn_of_noDyn hdo
-  simp only [applyStep, hnd] at h
+  simp only [applyStep, hnd, hdo] at h
   obtain ⟨es, hes, h⟩ := Res.bind_eq_ok h
   obtain ⟨es', hes', h⟩ := Res.bind_eq_ok h
   have hm := converted_members hU hrec (post := stripNull) (fun _ hv => stripNull_ty' hv)
@@ -631,7 +631,7 @@ theorem collToMap_ty {uns : Bool} {ie oe conv} {v r : Value}
     (hel : ElemsOK E v ie) (h : applyStep E rec (.collToMap oe conv) v = .ok r) :
     r.ty = .map oe.stripOpt := by
   have hnd : oe.isDyn = false := not_isDyn_of_noDyn hdo
-  simp only [applyStep, hnd] at h
+  simp only [applyStep, hnd, hdo] at h
   obtain ⟨es, hes, h⟩ := Res.bind_eq_ok h
   obtain ⟨es', hes', h⟩ := Res.bind_eq_ok h
   have hes'' : mapRes (fun e => (applyOpt rec conv e).map id) es = .ok es' := by
